@@ -4,6 +4,7 @@
 cd "$(dirname "$0")"
 export CARGO_NET_OFFLINE=true
 (cd tools && python3 -m vlib.gen)
+for p in tools/props/C*.py; do mkdir -p "coq/Extract/$(basename "$p" .py)"; done
 (cd coq && coq_makefile -f _CoqProject -o Makefile >/dev/null && timeout 7200 make -j16 -k)
 python3 tools/setup_build.py
 exit 0
